@@ -540,12 +540,18 @@ def evaluate(chk, fams, verbose=False):
             "bfn_boundary": bool(jumps) and all(bool(j["bfn"]) for j in jumps),
             "jump_max_eV": max([abs(j["J"]) for j in jumps], default=0.0),
         }
+        # one report per (family, oracle, molecule): the instance farthest from its window, with the number of instances
+        byo = {}
         for o, k, mag, msg in prob:
+            e = byo.setdefault((o, k), {"n": 0, "first": (mag, msg)})
+            e["n"] += 1
+        for (o, k), e in byo.items():
             nprob += 1
+            mag, msg = e["first"]
             if chk:
-                chk.violation(_desc(f, o, k, mag, jx), f"{fk} mol {k}: {msg}", replay={"fam": f})
+                chk.violation(_desc(f, o, k, mag, dict(jx, instances=e["n"])), f"{fk} mol {k}: {msg} [{e['n']} instance(s)]", replay={"fam": f})
             else:
-                print("  ", fk, "mol", k, msg)
+                print("  ", fk, "mol", k, msg, f"[{e['n']} instance(s)]")
     return nprob
 
 
